@@ -28,7 +28,7 @@ func vsymNewProxy(store metadata.Store) *proxy {
 
 func VsymC28_Metadata() {
 	nt, np := vsym_Param("topics"), vsym_Param("partitions")
-	names := []string{"alpha", "beta"}
+	names := []string{"alpha", "beta", "gamma"}
 	var topics []protocol.MetadataTopic
 	for i := 0; i < nt; i++ {
 		t := protocol.MetadataTopic{Topic: kmsg.StringPtr(names[i]), TopicID: metadata.TopicIDForName(names[i]), ErrorCode: vsym_Int16("topicErr")}
